@@ -99,6 +99,13 @@ LEVEL_TEXT = (
     "that drops a listed event repeating the processed version (`loopStepRSkip`) is stuck for good from EVERY such state "
     "(relist_skipped_stuck) — relist_skipped_witness, replayed through the corpus (relist_*); tied on the real operator's cycles "
     "(`relists` of C03.run: the interrupted turn and the re-armed sleep, tick by tick). "
+    "WHERE the loop's `base` comes from (Model/C03_Change; seed C03h): `baseClass` = the class none/same/diff that `_detect_causes` hands to "
+    "the cause detection, computed from the JSON values by C04's `diff` (`diff_iter`, first case `_same`); FULL, no bound on sizes or "
+    "depths: outstanding_change_detected (two well-formed values that differ as JSON values up to null-valued keys => class diff => the "
+    "loop's cause is UPDATE), no_change_no_cause (the converse), list_length_change_detected (lists of different lengths at any path: "
+    "appended, dropped, filled, emptied), list_prefix_variant_witness (`_same` over zip without the lengths: an appended item / an "
+    "emptied list is a NO-OP cause although the values differ — the seeded variant, corpus H1/H2), baseClassBy_same; tied per cycle of "
+    "every history (`C03.change`). "
     "Repaired in /repo and kept as regressions: C03-F1 (2ae938f), C03-F3 (d1b2dc4), C03-F5 (1c8f3dd, finalizer "
     "functions only — the rest was C03-N2, 608a57d + 02af7ce), C03-F7 (7224f57), C03-N1 "
     "(b7bf39c, sleeping_handler_woken_instance), C03-N3 (f7d6401, shared_id_regression), C03-N4 (40d09eb), C03-N6 (30557a0), 5dff3c1 (lost echo + constant on.event result). C03-F6 (name-addressed patches "
@@ -123,7 +130,8 @@ THEOREMS = [("Kopf.Props.C03", "Kopf.C03." + n) for n in [
     "skip_path_purges", "last_handled_written_only_by_closing_pass", "last_handled_kept_by_skipping_turns",
     "closing_ignores_unselected_records",
     "relist_in_sleep_leaves_event", "relist_converges", "relist_skipped_stuck", "relist_skipped_witness",
-    "pass_ignores_unselected_records", "deselected_unfinished_instance", "terminates_stable_partial", "unstable_filters_witness", "filtersStable_of_essence"]]
+    "pass_ignores_unselected_records", "deselected_unfinished_instance", "terminates_stable_partial", "unstable_filters_witness", "filtersStable_of_essence",
+    "outstanding_change_detected", "no_change_no_cause", "list_length_change_detected", "list_prefix_variant_witness", "baseClassBy_same"]]
 # the composed reactor (C03 loop + C07 barrier + C08 version test, versions generated by the model): Kopf/Props/X01.lean
 THEOREMS += x01_reactor.THEOREMS
 DRIVER_MODULES = ["C03", "X01"]
@@ -154,15 +162,24 @@ RULE = ("seeded histories of one object: 1-4 change handlers (create/update/resu
         "change, restart kinds, tail pass shapes, final classification) with at least one handler-reason pass or restart. Besides, "
         "the corpus holds one history OUTSIDE the quantifier (`guard_witness`: a deletion handler whose filter reads the framework's "
         "own finalizer): never judged by the oracle, its cycles are compared turn by turn with the Lean instance of "
-        "unstable_filters_witness (the loop never settles)")
+        "unstable_filters_witness (the loop never settles). A family of the KINDS of essential changes (add_shapes, 30 % / 25 %, a generator of "
+        "its own; seed C03h): every integer a spec field takes stands for a structured value (a list of strings, numbers, mappings with "
+        "nested lists and mappings, plus a sibling key of the spec that comes and goes), made from the value at hand by ONE change of a "
+        "kind of SHAPE_KINDS — list grown/shrunk at the tail, filled, emptied, at the head, item replaced, re-ordered; the same one level "
+        "down; key added/removed in a nested mapping or the spec; nested scalar changed; number turned into the boolean Python takes for "
+        "equal — injective per field, so reverts, field= selections and all timing/restart/fault structure are what they were (histograms "
+        "essential_change_kind, outstanding_change_seen_by_a_cycle, tie_change; null vs absent is not generated: C04-F10)")
 TRUSTED = ["harness/props/sim_c03.py `relist`: the fake server's resource versions are cluster-wide; `compact()` alone never expired the "
            "version the operator resumes from unless an object of the kind had changed, so a same-version re-listing could not occur before",
            "harness/sim (virtual-time loop, fake API server, scripted handlers, attribute-level observation of kopf)",
            "harness/props/sim_c03.py (kill hooks on the in-flight PATCH, windowed connection faults, stream cuts, patch-function action)",
            "harness/sim/observe.py: the placeholder that tells a written `memory.fully_handled_once` from an unwritten one during a pass reads "
            "like the flag's real value (white-box m3: an always-falsy placeholder hid a change that reads the flag inside the pass)",
-           "abstraction of the tail's first pass: records decoded with kopf's own progress storage (C16's subject), "
-           "last-handled vs essence taken from kopf's own diff (C04's subject)"]
+           "abstraction of the tail's first pass: records decoded with kopf's own progress storage (C16's subject); "
+           "last-handled vs essence in the tail's request is still kopf's own verdict (`cause.diff`), but that verdict is no longer taken on "
+           "trust: for every cycle of every history the class none/same/diff is recomputed from the object's body alone (independent "
+           "readings py_base / py_essence) by Lean `C03.baseClass` (C04's `diff`) and compared (`C03.change`), and the oracle states "
+           "'last-handled differs from the essence as JSON values => a change is detected' per cycle"]
 ASSUMPTIONS = ["GUARD FiltersStable: selection / prematch / finalizer requirement / handler behaviour do not depend on what the "
                "framework itself writes (records, last-handled, touch-dummy, finalizer, status.<handler>); generated filters are "
                "label filters and field= filters on spec fields of update handlers (which handler a field= filter selects for a "
@@ -306,6 +323,34 @@ def py_diff(a: Any, b: Any, path: tuple = ()) -> list:
             out += py_diff(a.get(k), b.get(k), path + (k,))
         return out
     return [["change", list(path), a, b]]
+
+
+def py_json_differs(a: Any, b: Any) -> bool:
+    """Do the two differ AS JSON VALUES (RFC 8259: `true` is not `1`; mappings unordered, lists ordered and of a length)?"""
+    return json.dumps(a, sort_keys=True, separators=(",", ":")) != json.dumps(b, sort_keys=True, separators=(",", ":"))
+
+
+def py_change_kind(a: Any, b: Any) -> str:
+    """What kind of difference (for the histograms only; nothing is judged by it)."""
+    def pre(x: Any, y: Any) -> bool:       # equal but for lists of which one is a prefix of the other
+        if isinstance(x, dict) and isinstance(y, dict):
+            return set(x) == set(y) and all(pre(x[k], y[k]) for k in x)
+        if isinstance(x, list) and isinstance(y, list):
+            return all(pre(p, q) for p, q in zip(x, y))
+        return not py_json_differs(x, y)
+    def keys(x: Any, y: Any) -> bool:      # some mapping has a key the other side has not
+        if isinstance(x, dict) and isinstance(y, dict):
+            return set(x) != set(y) or any(keys(x[k], y[k]) for k in x)
+        if isinstance(x, list) and isinstance(y, list):
+            return any(keys(p, q) for p, q in zip(x, y))
+        return False
+    if pre(a, b):
+        return "nothing but the length of a list (the shorter is a prefix of the longer)"
+    if a == b:
+        return "a number vs. the boolean Python takes for equal"
+    if keys(a, b):
+        return "a key added / removed (with or without more)"
+    return "values changed (scalars, list items, lists not prefix of one another)"
 
 
 def py_matches(h: dict, body: dict) -> bool:
@@ -569,6 +614,31 @@ def oracle(ctx: Ctx, sc: dict, tr: dict) -> dict:
         out["class"] = "closed-early"
         return out
 
+    # every essential change is an OUTSTANDING change ("every handler selected for the outstanding change …", "changes made while
+    # the operator was down are handled after it starts"): a cycle that looks at an object whose recorded last-handled state
+    # differs from its essential state — as JSON values: in any scalar, any key, the length or any item of any list, at any
+    # depth — has a change before it, whatever kind of change it is. (Read off the object's body alone; which handlers it
+    # selects is judged below. Not with daemons/timers: the framework then classifies from its live body, C09/C10's subject.)
+    if not any(h["kind"] in ("timer", "daemon") for h in sc["handlers"]):
+        for cyc in tr["cycles"]:
+            cs = cyc.get("cause")
+            b = cyc.get("body") or {}
+            if not cs or cyc["event_type"] == "DELETED" or cs.get("old_absent") or not isinstance(b.get("metadata"), dict):
+                continue
+            base_c, ess_c = py_base(b), py_essence(b)
+            if base_c is None or not py_json_differs(base_c, ess_c):
+                continue
+            kd = py_change_kind(base_c, ess_c)
+            ok = out.setdefault("outstanding_kinds", {})
+            ok[kd] = ok.get(kd, 0) + 1
+            if not cs.get("diff"):
+                ctx.oracle_fail(f"an essential change is not seen as a change: cycle {cyc['i']} (t={cyc['t0']:.3f}, {cs.get('reason')}) works on an "
+                                f"object whose last-handled state differs from its essential state ({kd}), and finds nothing to handle",
+                                {**rep, "cycle": cyc["i"], "last_handled": base_c, "essence": ess_c, "difference": py_diff(base_c, ess_c)},
+                                {"site": "detect_changing_cause", "shape": "last-handled state differs from the essential state, no change detected"})
+                out["class"] = "change-not-seen"
+                return out
+
     # a graceful stop that did not finish within the grace period (the simulated supervisor then killed the operator)
     hung = [m for m in tr["marks"] if m["what"] == "stopped" and m.get("result") == "'stop-timeout'" and not m.get("final")]
     if hung:
@@ -780,7 +850,7 @@ def oracle(ctx: Ctx, sc: dict, tr: dict) -> dict:
              tag={"finalizer": "C03-F5", "handler": "C03-N2"}.get(f.lost_wakeup))
         out["class"] = "lost-wakeup"
         return out
-    if not f.blind and base != f.ess:
+    if not f.blind and (base != f.ess or py_json_differs(base, f.ess)):
         fail("recorded last-handled state differs from the final essential state at quiescence",
              {**rep, "last_handled": base, "essence": f.ess},
              {"site": "process_changing_cause", "shape": "last-handled state differs from the final essential state at quiescence"},
@@ -1478,6 +1548,7 @@ def gen_scenario(rng: Any, i: int) -> dict:
     add_spawning(sc, i, 0.12)
     add_configured(sc, i, 0.1)
     add_relists(sc, i, 0.3)
+    add_shapes(sc, i, 0.3)
     return sc
 
 
@@ -1568,6 +1639,160 @@ def add_relists(sc: dict, i: int, p: float) -> None:
     for t in sorted(set(times)):
         tl.append([t, "relist", "http410" if r.random() < 0.2 else "410"])
     sc["family4"] = "relist"
+
+
+# ---- the KINDS of essential changes (seed C03h): structured values instead of scalar counters ------------------------------
+
+SHAPE_KINDS = ["list-tail-append", "list-tail-drop", "list-filled", "list-emptied", "list-head-insert", "list-head-drop",
+               "list-item-changed", "list-rotated", "nested-list-tail-append", "nested-list-tail-drop", "dict-key-added", "dict-key-removed",
+               "nested-scalar-changed", "int-to-bool", "spec-key-added", "spec-key-removed", "spec-key-grown"]
+# the kinds in which NOTHING but the length of one list differs, the shorter being a prefix of the longer
+LENGTH_ONLY = {"list-tail-append", "list-tail-drop", "list-filled", "list-emptied", "nested-list-tail-append", "nested-list-tail-drop",
+               "spec-key-grown"}
+
+
+def _shape_item(r: Any, n: int) -> Any:
+    k = r.random()
+    if k < 0.3:
+        return f"s{n}"
+    if k < 0.45:
+        return n % 2
+    return {"name": f"n{n}", "ports": r.choice([[], [80], [80, 443]]), "env": r.choice([{}, {"a": "1"}])}
+
+
+def _shape_step(r: Any, v: dict, n: int, kind: str) -> dict | None:
+    """ONE essential change of kind `kind` applied to the structured value `v` = {"x": <list>, "w": <absent=None | list>}
+    (`x` goes into the spec field itself, `w` into a sibling key of the spec that comes and goes); None = not applicable."""
+    import copy
+    v = copy.deepcopy(v)
+    x = v["x"]
+    dicts = [it for it in x if isinstance(it, dict)]
+    if kind == "list-tail-append" and x:
+        x.append(_shape_item(r, n))
+    elif kind == "list-tail-drop" and len(x) >= 2:
+        for _ in range(r.choice([1, 1, 2]) if len(x) >= 3 else 1):
+            x.pop()
+    elif kind == "list-filled" and not x:
+        x.extend(_shape_item(r, n + k) for k in range(r.choice([1, 1, 2])))
+    elif kind == "list-emptied" and x:
+        del x[:]
+    elif kind == "list-head-insert" and x:
+        x.insert(0, _shape_item(r, n))
+    elif kind == "list-head-drop" and len(x) >= 2:
+        x.pop(0)
+    elif kind == "list-item-changed" and x:
+        x[r.randrange(len(x))] = f"c{n}"
+    elif kind == "list-rotated" and len(x) >= 2 and py_json_differs(x[0], x[-1]):
+        x.append(x.pop(0))        # the same items in another order
+    elif kind == "nested-list-tail-append" and dicts:
+        r.choice(dicts)["ports"].append(8000 + n)
+    elif kind == "nested-list-tail-drop" and any(d["ports"] for d in dicts):
+        r.choice([d for d in dicts if d["ports"]])["ports"].pop()
+    elif kind == "dict-key-added" and dicts:
+        r.choice(dicts)["env"][f"k{n}"] = "v"
+    elif kind == "dict-key-removed" and any(d["env"] for d in dicts):
+        d = r.choice([d for d in dicts if d["env"]])
+        del d["env"][sorted(d["env"])[0]]
+    elif kind == "nested-scalar-changed" and dicts:
+        r.choice(dicts)["name"] = f"m{n}"
+    elif kind == "int-to-bool" and any(isinstance(it, int) and not isinstance(it, bool) for it in x):
+        k = next(k for k, it in enumerate(x) if isinstance(it, int) and not isinstance(it, bool))
+        x[k] = bool(x[k])         # 0 -> False, 1 -> True: equal for Python's `==`, a change for JSON
+    elif kind == "spec-key-added" and v["w"] is None:
+        v["w"] = r.choice([[], [f"w{n}"]])
+    elif kind == "spec-key-removed" and v["w"] is not None:
+        v["w"] = None
+    elif kind == "spec-key-grown" and v["w"] is not None:
+        v["w"].append(f"w{n}")
+    else:
+        return None
+    return v
+
+
+def add_shapes(sc: dict, i: int, p: float) -> None:
+    """WHICH KINDS of essential changes the external edits make (seed C03h; a generator of its own, the rest of the scenario is
+    what it was): in the other families every spec edit replaces one integer by another. Here every integer value `n` of a
+    spec field stands for a STRUCTURED value S(n) — a list of strings, numbers and mappings (with nested lists and mappings),
+    plus a sibling key of the spec that comes and goes — and S(n) is made from the value the object holds at that moment by
+    ONE change of a kind drawn from SHAPE_KINDS: a list grown / shrunk at its tail, filled / emptied, at its head, one item
+    replaced, the same items in another order; the same one level down (a list inside a mapping inside the list); a key added to / removed from a nested
+    mapping or the spec itself; a nested scalar changed; a number turned into the boolean that Python takes for equal. n ↦ S(n)
+    is injective per field, so a revert is a revert (it undoes the change: the inverse kind), a field that a `field=` filter
+    reads changes exactly when it did, and all timing / restart / fault structure is untouched. (null vs. absent is NOT
+    generated: the open finding C04-F10.) Lists are replaced as a whole by a merge-patch, so every edit is self-contained."""
+    import copy
+    import random
+    r = random.Random(i * 2654435761 + 41)
+    if r.random() >= p:
+        return
+    table: dict[str, dict[int, dict]] = {}
+    cur: dict[str, dict] = {}
+    kinds_made: list[str] = []
+
+    def value(f: str, n: int) -> dict:
+        tb = table.setdefault(f, {})
+        if n not in tb:
+            if f not in cur:
+                v = {"x": r.choice([[], ["a"], ["a", "b"], [{"name": "a", "ports": [80], "env": {}}], ["a", 1, {"name": "b", "ports": [], "env": {"a": "1"}}]]),
+                     "w": r.choice([None, None, ["w"]])}
+                kinds_made.append("initial")
+            else:
+                v = None
+                for _ in range(24):
+                    kind = r.choice(SHAPE_KINDS)
+                    v = _shape_step(r, cur[f], n, kind)
+                    if v is not None and all(v != o for o in tb.values()):
+                        kinds_made.append(kind)
+                        break
+                    v = None
+                if v is None:       # always applicable, always new (the item carries n)
+                    v = copy.deepcopy(cur[f])
+                    v["x"].append(f"u{n}")
+                    kinds_made.append("list-tail-append" if len(v["x"]) > 1 else "list-filled")
+            tb[n] = v
+        else:
+            kinds_made.append("revert")
+        cur[f] = tb[n]
+        return tb[n]
+
+    def spec_of(spec: dict, create: bool) -> dict:
+        out: dict[str, Any] = {}
+        for f, n in spec.items():
+            if isinstance(n, int) and not isinstance(n, bool):
+                v = value(f, n)
+                out[f] = copy.deepcopy(v["x"])
+                if v["w"] is not None:
+                    out[f + "w"] = copy.deepcopy(v["w"])
+                elif not create:
+                    out[f + "w"] = None        # merge-patch: the key goes away (or was not there)
+            else:
+                out[f] = n
+        return out
+
+    def body_of(body: dict, create: bool) -> dict:
+        body = copy.deepcopy(body)
+        if isinstance(body.get("spec"), dict):
+            body["spec"] = spec_of(body["spec"], create)
+        raw = ((body.get("metadata") or {}).get("annotations") or {}).get(LAST_HANDLED)
+        if raw is not None:      # an object that comes with a last-handled state (handled by an earlier operator)
+            lh = json.loads(raw)
+            if isinstance(lh.get("spec"), dict):
+                lh["spec"] = spec_of(lh["spec"], True)
+            body["metadata"]["annotations"][LAST_HANDLED] = json.dumps(lh, separators=(",", ":")) + "\n"
+        return body
+
+    for o in sc.get("objects") or []:
+        if isinstance(o.get("body"), dict):
+            o["body"] = body_of(o["body"], True)
+    for e in sorted(sc.get("timeline", []), key=lambda e: float(e[0])):
+        if e[1] in ("create", "edit") and len(e) > 3 and isinstance(e[3], dict):
+            e[3] = body_of(e[3], e[1] == "create")
+    for s in sc.get("slips") or []:
+        op = s.get("op")
+        if isinstance(op, list) and op and op[0] == "edit" and isinstance(op[-1], dict):
+            op[-1] = body_of(op[-1], False)
+    sc["family5"] = "shapes"
+    sc["shape_kinds"] = kinds_made
 
 
 DESELECT_FIELDS = ["x", "y", "z"]
@@ -1698,6 +1923,7 @@ def gen_deselect(rng: Any, i: int) -> dict:
     add_spawning(sc, i, 0.1)
     add_configured(sc, i, 0.08)
     add_relists(sc, i, 0.25)
+    add_shapes(sc, i, 0.25)
     return sc
 
 
@@ -1752,6 +1978,7 @@ def _evaluate(ctx: Ctx, scenarios: list[dict], tie: bool = True) -> None:
     results = sim_c03.run_many(scenarios, wall=40.0)
     cap = _keepalive_cap(ctx)
     reqs, impls, where = [], [], []
+    changes: dict[str, tuple] = {}      # (last-handled, essence) pairs the real cause detection classified: Lean `baseClass` on the same values
     for sc, res in zip(scenarios, results):
         if res.get("stall"):
             ctx.oracle_fail("the simulated operator did not finish within the wall-clock limit (a task spinning without suspending, or never settling)", {"scenario": sc, "stderr": res.get("stderr", "")[-3000:]},
@@ -1764,6 +1991,13 @@ def _evaluate(ctx: Ctx, scenarios: list[dict], tie: bool = True) -> None:
             raise RuntimeError(f"simulation error: {tr['sim_error']}")
         ctx.traces += 1
         o = oracle(ctx, sc, tr)
+        if tie and not any(h["kind"] in ("timer", "daemon") for h in sc["handlers"]):
+            for cyc in tr["cycles"]:
+                cs, b = cyc.get("cause"), cyc.get("body") or {}
+                if cs and cyc["event_type"] != "DELETED" and isinstance(b.get("metadata"), dict):
+                    pair = [py_base(b), py_essence(b)]
+                    got = "none" if cs.get("old_absent") else ("diff" if cs.get("diff") else "same")
+                    changes.setdefault(leanio.canon(pair + [got]), (pair, got, sc, cyc["i"]))
         kinds = sorted({e[1] + (":" + e[2] if e[1] == "killw" else "") for e in sc.get("timeline", []) if e[1] in ("stop", "kill", "killw")})
         how = sorted({m.get("how") for m in tr["marks"] if m["what"] == "killed"} - {None})
         ctx.count("class", o["class"])
@@ -1788,6 +2022,12 @@ def _evaluate(ctx: Ctx, scenarios: list[dict], tie: bool = True) -> None:
                         and float(ap["t_end"]) < float(ap["t"]) + min(float(d) for d in ap["delays"])
                     ctx.count("relisted_event", f"{'same version as the last processed' if same else 'newer version'}, "
                               f"{'interrupts the sleep till a retry' if cut else 'worker not sleeping for a retry'}")
+        if sc.get("family5"):
+            ctx.count("family_class", f"shapes:{o['class']}")
+            for kd in sc.get("shape_kinds") or []:
+                ctx.count("essential_change_kind", kd + (" (length of one list only)" if kd in LENGTH_ONLY else ""))
+        for kd, k in (o.get("outstanding_kinds") or {}).items():
+            ctx.count("outstanding_change_seen_by_a_cycle", kd, k)
         if sc.get("family2"):
             sp = next((h for h in sc["handlers"] if h["kind"] in ("timer", "daemon")), {})
             relist = any(e[1] == "cut" and len(e) > 2 for e in sc.get("timeline", []))
@@ -1863,6 +2103,20 @@ def _evaluate(ctx: Ctx, scenarios: list[dict], tie: bool = True) -> None:
                 if len(impl["passes"]) >= 3:
                     sample = {"scenario_seed": sc.get("seed"), "request": req[1], "impl": impl}
         ctx.case(key=shape, nontrivial=nontrivial, sample=sample)
+    if changes:
+        items = list(changes.values())
+        try:
+            outs = ctx.driver.ask([["C03.change", pair[0], pair[1]] for pair, _, _, _ in items])
+        except leanio.LeanError as e:
+            ctx.tie_fail(f"Lean driver failed: {e}", {"log": e.log})
+            return
+        for (pair, got, sc, ci), out in zip(items, outs):
+            if not out or out[0] != "ok":
+                ctx.count("tie_change", "skipped: values outside the model's JSON (e.g. non-integer numbers)")
+                continue
+            ctx.count("tie_change", f"{got}" + ("; the prefix variant of the comparison would say same" if got == "diff" and out[1]["variantPfx"] == "same" else ""))
+            ctx.compare("C03 class of (last-handled, essence) at a cycle: kopf's cause detection vs Lean baseClass", got, out[1]["base"],
+                        {"scenario": sc, "cycle": ci, "last_handled": pair[0], "essence": pair[1]})
     if not reqs:
         return
     try:
